@@ -32,7 +32,7 @@ NAME_SCHEMES = {
     "utf8": {"a": "ä".encode(), "d": "日本".encode(), "b": "é".encode(), "c": "\U0001f600".encode(),
              "x": "ß".encode(), "e": "é".encode(), "s": "ф".encode(), "f": "א".encode(), "g": "ñ".encode()},
     "nonutf8": {"a": b"\xff\xfea", "d": b"d\x80", "b": b"\xe9", "c": b"c\xc3", "x": b"\xa0x", "e": b"\xfce", "s": b"s\xf8", "f": b"\xed\xa0\x80", "g": b"\x81"},
-    "dashdot": {"a": b"-a", "d": b".d", "b": b"--", "c": b".gitx", "x": b"..x", "e": b"e.lock", "s": b"-s", "f": b"...", "g": b"@{g}"},
+    "dashdot": {"a": b"-a", "d": b".d", "b": b"--", "c": b".gitx", "x": b"..x", "e": b"e.lock", "s": b"-s", "f": b"...f", "g": b"@{g}"},
 }
 
 
